@@ -289,6 +289,7 @@ def run(ctx):
     _reader_type_guards(ctx, repo)
     _dedupe_keys(ctx, repo)
     _tag_order(ctx, repo)
+    _unset_string_default(ctx, repo)
     shared.module_state_rule(ctx, 'C16.i', ['cirq-google/cirq_google/api/', 'cirq-google/cirq_google/serialization/', 'cirq-google/cirq_google/study/', 'cirq-google/cirq_google/devices/'], floor=3)
     ctx.decided.append('C16.i converters keep no state between calls: module-level containers of the serialization packages are never written from inside a function')
 
@@ -1332,3 +1333,64 @@ def _tag_order(ctx, repo):
         ctx.ob('C16.m', f'{ci.qual}._deserialize_gate_op:tag_indices#{k}', ok, '' if ok else
                f'`{ast.unparse(filt[0])[:70]}` drops listed tags that were already restored and the rest is appended behind them: with_tags(\'a\', PhysicalZTag()) is read back as '
                '(PhysicalZTag(), \'a\'), which is a different TaggedOperation', ci.mod.rel, c.lineno)
+
+
+def _unset_string_default(ctx, repo):
+    """C16.n - an unset proto3 string is read back as the constructor's default None, not as ''."""
+    ctx.decided.append('C16.n readers: a proto3 string field without presence that feeds a constructor parameter whose default is None is read with `... or None` (or under a presence '
+                       'test): the writer leaves the field unset for None, and \'\' is not the value that was written')
+    ctx.rule('C16.n', 'unset string -> default: in cirq_google functions reading a generated message, a keyword argument k=<string field> (possibly wrapped in str()) of a repository class '
+             'whose parameter k defaults to None maps the empty string back to None', floor=1, style='COH')
+    msgs = _schemas(repo)
+    n = 0
+    for m in sorted(repo.modules.values(), key=lambda x: x.rel):
+        if not m.rel.startswith('cirq-google/') or m.rel.endswith('_test.py') or '_pb2' in m.rel:
+            continue
+        for fn in [f for f in ast.walk(m.tree) if isinstance(f, ast.FunctionDef)]:
+            env = {}
+            for a in fn.args.args + fn.args.kwonlyargs:
+                if a.annotation is not None:
+                    for part in ast.unparse(a.annotation).strip('\'"').split('|'):
+                        nm = part.strip().split('.')[-1]
+                        if '_pb2' in part and nm in msgs:
+                            env[a.arg] = msgs[nm]
+            if not env:
+                continue
+            for c in ast.walk(fn):
+                if not isinstance(c, ast.Call):
+                    continue
+                ci = None
+                for kw in c.keywords:
+                    if kw.arg is None:
+                        continue
+                    v = kw.value
+                    inner = v
+                    mapped = False
+                    if isinstance(v, ast.BoolOp) and isinstance(v.op, ast.Or) and isinstance(v.values[-1], ast.Constant) and v.values[-1].value is None:
+                        inner, mapped = v.values[0], True
+                    if isinstance(v, ast.IfExp):
+                        inner, mapped = v.body, True
+                    if isinstance(inner, ast.Call) and call_name(inner) == 'str' and inner.args:
+                        inner = inner.args[0]
+                    r = _field_of(msgs, inner, env) if isinstance(inner, ast.Attribute) else None
+                    if not r or r[0]['type'] != 'string' or r[0]['repeated'] or r[0]['map'] or r[0].get('optional') or r[0].get('oneof'):
+                        continue
+                    ci = ci or repo.resolve_class(m, c.func)
+                    if ci is None:
+                        continue
+                    found = repo.find_method(ci, '__init__')
+                    if not found:
+                        continue
+                    init = found[1]
+                    pos = init.args.args[1:]
+                    dflt = dict(zip([a.arg for a in pos][len(pos) - len(init.args.defaults):], init.args.defaults))
+                    dflt.update({a.arg: d for a, d in zip(init.args.kwonlyargs, init.args.kw_defaults) if d is not None})
+                    d = dflt.get(kw.arg)
+                    if not (isinstance(d, ast.Constant) and d.value is None):
+                        continue
+                    n += 1
+                    ctx.ob('C16.n', f'{m.name}.{fn.name}:{ci.name}({kw.arg}=)', mapped, '' if mapped else
+                           f'{ci.name}({kw.arg}={ast.unparse(v)}) turns an unset `{ast.unparse(inner)}` into \'\' although the parameter defaults to None and the writer leaves the field unset for '
+                           'None: the default-constructed object does not round-trip to an equal one', m.rel, c.lineno)
+    if n == 0:
+        raise AnalysisError('C16.n: no string field feeding a None-default parameter found')
